@@ -506,6 +506,33 @@ def wsgi_transport(ctx, rng):
                         else:
                             ctx.violation(f"sequential|{op}|value-despite-failing-input|wsgi", case, repr(v)[:120])
                         ctx.case(("wsgi-fail", bname, nchunks, fail_at, op, declared))
+    # (c) request headers that describe the TRANSPORT, which the server has dealt with already (gunicorn / waitress hand over a de-chunked
+    #     wsgi.input and set wsgi.input_terminated): the body is what wsgi.input delivers
+    for bname in ("json", "urlenc", "text"):
+        body, ct = BODIES[bname]
+        for extra in ([("Transfer-Encoding", "chunked")], [("Transfer-Encoding", "gzip, chunked")], [("Expect", "100-continue")], [("Connection", "close"), ("TE", "trailers")],
+                      [("Content-Encoding", "identity")], [("Trailer", "X-Sum")]):
+            for op in ("body", "stream", "json", "form"):
+                if (op == "json" and bname != "json") or (op == "form" and bname != "urlenc"):
+                    continue
+                chunked = extra[0][0] == "Transfer-Encoding"
+                req = drivers.Req(method="POST", headers=[("Content-Type", ct)] + extra + ([] if chunked else [("Content-Length", str(len(body)))]), chunks=[body[:4], body[4:]])
+                env = drivers.to_environ(req)
+                if chunked:
+                    env.pop("CONTENT_LENGTH", None)
+                    env["wsgi.input_terminated"] = True
+                r = wsgi.Request(env)
+                case = {"iface": "wsgi", "body": bname, "transport_headers": extra, "op": op}
+                ctx.mon("sequential-model")
+                try:
+                    v = r.body if op == "body" else b"".join(r.stream()) if op == "stream" else r.json if op == "json" else form_items(r.form)
+                except Exception as e:  # noqa
+                    ctx.violation(f"sequential|{op}|exception-{type(e).__name__}|transport-headers|wsgi", case, repr(e)[:200])
+                    continue
+                want = body if op in ("body", "stream") else json.loads(body) if op == "json" else FORM_VALS["urlenc"]
+                if v != want:
+                    ctx.violation(f"sequential|{op}|wrong-value|transport-headers|wsgi", case, f"{v!r} instead of {want!r}")
+                ctx.case(("wsgi-transport-headers", bname, repr(extra), op))
     for size in (65536, 65537, 70_000, 131072, 200_001):
         body = bytes((i * 7 + (i >> 9)) & 0xFF for i in range(size))
         for kind in ("buffered-reader", "bytesio"):
